@@ -35,6 +35,17 @@ ModelMatchesE(e) ==
                                              /\ p.nodes[S(n)].backoff[S(m)] = backoff'[n][m]
                                              /\ p.nodes[S(n)].inv[S(m)] = inv'[n][m]
   /\ e.only # 0 \/ \A s \in Nodes : \A r \in Peers[s] : ObsChan(p, s, r) = chan'[s][r]
+Diff(e) ==      \* names the first component that differs (for the drift report)
+  LET p == e.post
+      n == CHOOSE x \in Watched(e) : TRUE
+  IN IF ObsHas(p, n) # has'[n] THEN "has"
+     ELSE IF p.nodes[S(n)].head # head'[n] THEN "head"
+     ELSE IF p.nodes[S(n)].pool # pool'[n] THEN "pool"
+     ELSE IF p.nodes[S(n)].fetching # fetching'[n] THEN "fetching: model " \o ToString(fetching'[n])
+     ELSE IF \E m \in Peers[n] : p.nodes[S(n)].waiting[S(m)] # waiting'[n][m] THEN "waiting"
+     ELSE IF \E m \in Peers[n] : p.nodes[S(n)].backoff[S(m)] # backoff'[n][m] THEN "backoff"
+     ELSE IF \E m \in Peers[n] : p.nodes[S(n)].inv[S(m)] # inv'[n][m] THEN "inv: model " \o ToString(inv'[n])
+     ELSE "channels"
 ModelMatches(p) ==
   /\ \A n \in Nodes : /\ ObsHas(p, n) = has'[n] /\ p.nodes[S(n)].head = head'[n] /\ p.nodes[S(n)].pool = pool'[n]
                       /\ p.nodes[S(n)].fetching = fetching'[n]
@@ -76,7 +87,7 @@ TNext ==
   /\ LET e == Ev[l] IN
      /\ Apply(e)
      /\ LET c == PClause(e) IN
-        /\ (e.compare /\ ~ModelMatchesE(e) => PrintT(ToJson(<< "DRIFT", Traces[tid].id, l, "state after " \o e.a \o " differs from Net" >>)))
+        /\ (e.compare /\ ~ModelMatchesE(e) => PrintT(ToJson(<< "DRIFT", Traces[tid].id, l, "state after " \o e.a \o " differs from Net in " \o Diff(e) >>)))
         /\ IF c # "" THEN Out(c) /\ l' = Len(Ev) + 1
            ELSE /\ l' = l + 1 /\ ((l + 1 > Len(Ev)) => Out("ok"))
 TSpec == TInit /\ [][TNext]_tv
